@@ -5,6 +5,7 @@ from . import log
 from .arguments.parser import ArgumentParser
 from .builtins import builtin, init as builtin_init
 from .build_inputs import BuildInputs, Regenerating
+from .exceptions import AbortConfigure
 from .iterutils import listify
 from .path import exists, Path, pushd, Root
 from .shell import Mode
@@ -50,6 +51,10 @@ def _execute_script(f, context, path, *, run_hooks=True):
         except SystemExit as e:
             if e.code:
                 raise ScriptExitError(filename, e.code)
+        except AbortConfigure:
+            # This is how bfg9000 itself cuts a run short; coming from a
+            # script it must not turn a failure into "nothing to do".
+            raise RuntimeError('{} raised AbortConfigure'.format(filename))
 
         if run_hooks:
             context.run_hook('post_execute_hook')
